@@ -309,6 +309,9 @@ func c13Matchers(c *Ctx) {
 
 func checkC16(c *Ctx) {
 	e1CheckConstants(c, "C16-K7", []string{"dhcpv6.MessageType"}, 20)
+	// "also after a trip over the wire": the header decoders of messages and relay messages reject nothing a relay chain
+	// of any depth can contain (shared with C05-K11)
+	e8CheckRejects(c, "C16-K8", func(n string) bool { return n == "dhcpv6.MessageFromBytes" || n == "dhcpv6.RelayMessageFromBytes" }, 4)
 	r := c.R
 	r.Decides = append(r.Decides,
 		"K1 EncapsulateRelay: type guard; LinkAddr/PeerAddr from the arguments; hop count = inner hop + 1 if the inner message is a relay else 0; exactly one relay-message option wrapping the argument; DecapsulateRelay returns that option's message",
